@@ -25,7 +25,9 @@ theorem translator_complete : Gen.missing = [] := by decide
 
 theorem skeleton_unchanged :
     (Gen.Skel.conds_Mux_ServeHTTP,
+     Gen.Skel.stmts_Mux_ServeHTTP,
      Gen.Skel.conds_Mux_serveGRPC,
+     Gen.Skel.stmts_Mux_serveGRPC,
      Gen.Skel.conds_Mux_serveGRPCWeb,
      Gen.Skel.stmts_Mux_serveGRPCWeb,
      Gen.Skel.conds_Mux_serveHTTP,
@@ -39,7 +41,9 @@ theorem skeleton_unchanged :
      Gen.Skel.conds_lexPath,
      Gen.Skel.stmts_lexPath,
      Gen.Skel.conds_lexPathSegment,
+     Gen.Skel.stmts_lexPathSegment,
      Gen.Skel.conds_lexer_emit,
+     Gen.Skel.stmts_lexer_emit,
      Gen.Skel.conds_CodecProto_ReadNext,
      Gen.Skel.stmts_CodecProto_ReadNext,
      Gen.Skel.conds_CodecJSON_ReadNext,
@@ -53,19 +57,27 @@ theorem skeleton_unchanged :
      Gen.Skel.conds_decodeTimeout,
      Gen.Skel.stmts_decodeTimeout,
      Gen.Skel.conds_HTTPStatusCode,
+     Gen.Skel.stmts_HTTPStatusCode,
      Gen.Skel.conds_WSStatusCode,
+     Gen.Skel.stmts_WSStatusCode,
      Gen.Skel.conds_params_set,
      Gen.Skel.stmts_params_set,
      Gen.Skel.conds_fieldPath,
+     Gen.Skel.stmts_fieldPath,
      Gen.Skel.conds_method_parseQueryParams,
+     Gen.Skel.stmts_method_parseQueryParams,
      Gen.Skel.conds_parseParam,
+     Gen.Skel.stmts_parseParam,
      Gen.Skel.conds_streamGRPC_decompress,
      Gen.Skel.stmts_streamGRPC_decompress,
      Gen.Skel.conds_streamGRPC_compress,
      Gen.Skel.stmts_streamGRPC_compress,
-     Gen.Skel.conds_Mux_encError)
+     Gen.Skel.conds_Mux_encError,
+     Gen.Skel.stmts_Mux_encError)
   = (Expected.C09.conds_Mux_ServeHTTP,
+     Expected.C09.stmts_Mux_ServeHTTP,
      Expected.C09.conds_Mux_serveGRPC,
+     Expected.C09.stmts_Mux_serveGRPC,
      Expected.C09.conds_Mux_serveGRPCWeb,
      Expected.C09.stmts_Mux_serveGRPCWeb,
      Expected.C09.conds_Mux_serveHTTP,
@@ -79,7 +91,9 @@ theorem skeleton_unchanged :
      Expected.C09.conds_lexPath,
      Expected.C09.stmts_lexPath,
      Expected.C09.conds_lexPathSegment,
+     Expected.C09.stmts_lexPathSegment,
      Expected.C09.conds_lexer_emit,
+     Expected.C09.stmts_lexer_emit,
      Expected.C09.conds_CodecProto_ReadNext,
      Expected.C09.stmts_CodecProto_ReadNext,
      Expected.C09.conds_CodecJSON_ReadNext,
@@ -93,17 +107,23 @@ theorem skeleton_unchanged :
      Expected.C09.conds_decodeTimeout,
      Expected.C09.stmts_decodeTimeout,
      Expected.C09.conds_HTTPStatusCode,
+     Expected.C09.stmts_HTTPStatusCode,
      Expected.C09.conds_WSStatusCode,
+     Expected.C09.stmts_WSStatusCode,
      Expected.C09.conds_params_set,
      Expected.C09.stmts_params_set,
      Expected.C09.conds_fieldPath,
+     Expected.C09.stmts_fieldPath,
      Expected.C09.conds_method_parseQueryParams,
+     Expected.C09.stmts_method_parseQueryParams,
      Expected.C09.conds_parseParam,
+     Expected.C09.stmts_parseParam,
      Expected.C09.conds_streamGRPC_decompress,
      Expected.C09.stmts_streamGRPC_decompress,
      Expected.C09.conds_streamGRPC_compress,
      Expected.C09.stmts_streamGRPC_compress,
-     Expected.C09.conds_Mux_encError) := rfl
+     Expected.C09.conds_Mux_encError,
+     Expected.C09.stmts_Mux_encError) := rfl
 
 /-- every index / slice expression, type assertion and explicit panic of the package is one
 that was audited (193 sites): a new or changed one breaks this. -/
